@@ -1,5 +1,6 @@
 """C08 -- parallelism never exceeds max_workers and is actually delivered."""
 from ..rules import timeouts as T
+from ..rules import reusable as X
 
 EXPLANATION = (
     "Static analysis. Decides: the only insertion into the worker table is in the spawn routine, inside a loop guarded by "
@@ -16,5 +17,6 @@ def run(e, R, tier):
         T.r_spawn_site,
         T.r_spawn_locked,
         T.r_respawn_guard,
+        X.r_resize,
     ])
 
